@@ -511,17 +511,16 @@ class Core(composites.Composite):
 
         # could speed up output by passing format args as an arg and only process if verb good.
         runLog.debug("Adding   {0} to {1}".format(a, self))
-        composites.Composite.add(self, a)
         aName = a.getName()
 
         spatialLocator = spatialLocator or a.spatialLocator
 
+        # validate the destination before attaching the assembly, so that a refused add leaves
+        # the core unchanged
         if spatialLocator is not None and spatialLocator in self.childrenByLocator:
             raise ValueError(
                 "Cannot add {} because location {} is already filled by {}."
-                "".format(
-                    aName, a.spatialLocator, self.childrenByLocator[a.spatialLocator]
-                )
+                "".format(aName, spatialLocator, self.childrenByLocator[spatialLocator])
             )
 
         if spatialLocator is not None:
@@ -535,6 +534,9 @@ class Core(composites.Composite):
                         spatialLocator, self.spatialGrid.symmetry.domain
                     )
                 )
+
+        composites.Composite.add(self, a)
+        if spatialLocator is not None:
             a.moveTo(spatialLocator)
 
         self.childrenByLocator[spatialLocator] = a
